@@ -434,6 +434,11 @@ func cmdReplay(args []string) int {
 }
 
 func init() {
+	propMeta["C09"] = propInfo{Level: "fault_enumeration",
+		Assumptions: []string{"fault model: the process can be killed after any completed file-system call and after any prefix of a write (cut points: every byte for writes <= 256 B, else 1, n/2, n-1 and every multiple of 4096); completed calls persist. Power loss that reorders a rename before unsynced data is NOT modelled (stronger than the statement)",
+			"store/store.go is rebuilt with os -> zverif/vos (pass-through to a real temp directory); the shim's fidelity is checked by the final load-after-save comparisons against the plain os package"},
+		Rule:        "histories of 1-3 sequential saves over snapshot sizes {0, 1, 60, big}, every crash point (each completed call and each write cut) of each history; one more save with each of its calls failing once; two concurrent savers under every interleaving of their calls; a crash point is non-trivial/distinct when it is a different (call, offset) instant",
+		Explanation: "exhaustive crash-point and fault enumeration on the real JsonDataStore"}
 	propMeta["C11"] = propInfo{Level: "model_checking", Assumptions: rmcAssumptions,
 		Rule:        "every schedule up to the deviation bound of Shutdown (graceful; forced with the context cancelled at every point) from nine prefix states, alone and racing with a schedule, cancel or save; plus the persist loop under the virtual clock; an execution is distinct when its final runner state differs",
 		Explanation: "stateless DFS over thread interleavings of the real PipelineRunner under a controlled scheduler and virtual clock, with a recording data store"}
@@ -469,5 +474,18 @@ func init() {
 			fmt.Printf("%d %s bound=%d\n", i, sc.Name, b)
 		}
 		os.Exit(0)
+	}
+}
+
+func init() {
+	if p := os.Getenv("VERIF_CPUPROFILE"); p != "" {
+		f, _ := os.Create(p)
+		pprofStart(f)
+		go func() {
+			time.Sleep(20 * time.Second)
+			pprofStop()
+			f.Close()
+			os.Exit(0)
+		}()
 	}
 }
